@@ -21,7 +21,8 @@ Compared per case, each disagreement attributed to the earliest phase that expla
   parser   syntax diagnostics (message, span, first label), the named AST (implementation's tree
            with ids erased = Parser.to_lang of the model's tree)
   number   the same, when the trees differ only in number literals (str::parse::<f64> vs
-           NumParse.to_number)
+           NumParse.to_number); every Number token of the model lexer has the shape digits[.digits]
+           (the hypothesis of PIPELINE_number_literal_parses)
   static   acceptance and the multiset of error messages of the resolver vs StaticRules.check
   resolve  Pipeline.ids (LexResolve.lex_ids) succeeds on every accepted program, its result is
            `lexical` and binds like the real resolver (same_binding_structure)
@@ -321,6 +322,8 @@ def parse_model(lines):
             cur["front"] = l[6:].strip()
         elif l.startswith("tokens "):
             cur["info"] = l.strip()
+        elif l.startswith("numlit "):
+            cur["numlit"] = l[7:].strip()
         elif l.startswith("ldiag "):
             p = l.split()
             cur["ldiag"].append((p[1].replace("_", " "), int(p[2]), int(p[3])))
@@ -458,6 +461,8 @@ def compare_case(ir, mr, ran):
         return "disagree", "front", {"what": "no implementation record"}
     if mr["front"] != "ok":
         return "disagree", "front", {"what": "model front end did not return on valid UTF-8", "front": mr["front"]}
+    if mr.get("numlit") == "0":
+        return "disagree", "number", {"what": "a Number token of the model lexer is not digits[.digits] (hypothesis of number_literal_parses)"}
     lex, syn, res, order_ok = impl_diags(ir)
     if not order_ok:
         return "disagree", "lexer", {"what": "implementation lists a lexical diagnostic after a syntax diagnostic"}
